@@ -156,7 +156,11 @@ func (vc *VC) pos(p token.Pos) string {
 func (vc *VC) oblige(kind string, pc, t string, pos token.Pos, desc string) *Obligation {
 	vc.obCount[kind]++
 	ob := &Obligation{Kind: kind, Term: sImp(pc, t), Pos: vc.pos(pos), Desc: desc}
-	ob.Name = fmt.Sprintf("%s#%s.%d", vc.e.fnKey(vc.fn), kind, vc.obCount[kind])
+	fname := "lemma"
+	if vc.fn != nil {
+		fname = vc.fn.String() // includes type arguments for generic instances
+	}
+	ob.Name = fmt.Sprintf("%s#%s.%d", fname, kind, vc.obCount[kind])
 	ob.idx = len(vc.obs)
 	vc.obs = append(vc.obs, ob)
 	if ob.Term == "true" {
